@@ -718,11 +718,13 @@ REL_RECOMPUTED = 1e-12     # two computations of the same spectrum agree to roun
 
 def cluster(full, rel=REL_RECOMPUTED):
     """{t: values} -> {t: representatives}: values within ``rel`` (relative, chained) share one representative, values below
-    rel * (largest value of their sector) are numerical zeros (representative 0.0, weightless)."""
+    rel * (largest value of the spectrum) are numerical zeros (representative 0.0, weightless)."""
     items = []
+    # noise floor relative to the largest value of the whole spectrum: a sector that is zero up to rounding of the operand
+    # (values ~1e-16 ||a||) holds no weight, whatever the ratios between its own noise values
+    mx = max((float(np.max(np.abs(np.asarray(v, dtype=float)))) for v in full.values() if len(v)), default=0.0)
     for t, v in full.items():
         v = np.asarray(v, dtype=float)
-        mx = float(np.max(np.abs(v))) if len(v) else 0.0
         items += [(float(x), t, i, abs(x) <= rel * mx) for i, x in enumerate(v)]
     out = {t: np.zeros(len(v)) for t, v in full.items()}
     cur = None
